@@ -627,6 +627,8 @@ func noReturnBlock(b *ssa.BasicBlock) bool {
 
 // Sites confirmed by reading that the rules above cannot decide (one line of reason each).
 var confirmedPanicFree = map[string]string{
+	"M13b|internal/codegen.getImmediateValue|make with a run-time length": "the length is the immediate width of the matched table row (1, 2 or 4 — rule T5 for the hand-written rows, JSON rows are data of the trusted base)",
+	"M13b|internal/codegen.handleALIGNB|make with a run-time length":      "padding is smaller than the alignment unit, which pass 1 hands over as a positive int32 (processALIGNB converts and rejects the rest)",
 	// sort comparator: i, j range over allEntries[4:], the slice handed to sort.SliceStable
 	"V13|(*internal/filefmt.CoffFormat).generateSymbolEntries$1|allEntries[4 + i]": "comparator of sort.SliceStable(allEntries[4:], …) under `len(allEntries) > 4`: i < len(allEntries)-4",
 	"V13|(*internal/filefmt.CoffFormat).generateSymbolEntries$1|allEntries[4 + j]": "comparator of sort.SliceStable(allEntries[4:], …) under `len(allEntries) > 4`: j < len(allEntries)-4",
@@ -879,4 +881,136 @@ func testedNonNegative(f *ssa.Function, idx ssa.Value, blk *ssa.BasicBlock) bool
 		}
 	}
 	return false
+}
+
+// ---------------------------------------------------------------------------------------
+// M13b: allocation sizes taken from the input are bounded
+// ---------------------------------------------------------------------------------------
+
+func ruleM13b(c *Ctx) {
+	c.doc("M13b", "a make([]T, n) in code reachable from an assembly whose length is not a constant and not computed from lengths of data already in memory (len/cap, sums and products of those with constants) is dominated by a comparison of n with a constant upper bound: a number written in the source (RESB 0x7fffffffffff) must not be turned into an allocation request the runtime answers with a fatal out-of-memory error")
+	reach := c.reach()
+	n := 0
+	for _, f := range c.L.RepoFuncs() {
+		if _, ok := reach[f]; !ok || c.isGeneratedFn(f) {
+			continue
+		}
+		per := 0
+		for _, b := range f.Blocks {
+			for _, in := range b.Instrs {
+				ms, ok := in.(*ssa.MakeSlice)
+				if !ok {
+					continue
+				}
+				if memoryProportional(ms.Len, 0) {
+					continue
+				}
+				n++
+				per++
+				key := fmt.Sprintf("%s|make with a run-time length#%d", shortName(f), per)
+				lv := ms.Len
+				for {
+					if cv, ok := lv.(*ssa.Convert); ok {
+						lv = cv.X
+						continue
+					}
+					break
+				}
+				bounded := upperBounded(f, lv, 1<<31-1, b) || upperBounded(f, ms.Len, 1<<31-1, b)
+				if _, ok := valueLowerBound(f, lv, b); ok {
+					bounded = true // n == k established by a switch/if
+				}
+				if reason, ok := confirmedPanicFree["M13b|"+strings.SplitN(key, "#", 2)[0]]; ok && !bounded {
+					c.ok("M13b", key, c.L.Pos(instrPos(in)), "confirmed by reading: "+reason)
+					continue
+				}
+				c.check(bounded, "M13b", key, c.L.Pos(instrPos(in)), shortName(f)+" allocates "+valName(ms.Len)+" elements with no upper bound on that value: a large number in the source is a fatal out-of-memory error")
+			}
+		}
+	}
+	c.analysed["M13b_dynamic_makes"] = n
+	c.floor("M13b", 1)
+}
+
+// memoryProportional: constants, len()/cap() results and sums/products/differences of those.
+func memoryProportional(v ssa.Value, depth int) bool {
+	if depth > 8 {
+		return false
+	}
+	switch x := v.(type) {
+	case *ssa.Const:
+		return true
+	case *ssa.Call:
+		if bi, ok := x.Call.Value.(*ssa.Builtin); ok && (bi.Name() == "len" || bi.Name() == "cap") {
+			return true
+		}
+		// (*bytes.Buffer).Len and friends
+		if strings.HasSuffix(calleeName(x.Common()), ").Len") {
+			return true
+		}
+	case *ssa.BinOp:
+		switch x.Op {
+		case token.ADD, token.SUB, token.MUL:
+			return memoryProportional(x.X, depth+1) && memoryProportional(x.Y, depth+1)
+		}
+	case *ssa.Convert:
+		return memoryProportional(x.X, depth+1)
+	case *ssa.Phi:
+		for _, e := range x.Edges {
+			if !memoryProportional(e, depth+1) {
+				return false
+			}
+		}
+		return true
+	}
+	return false
+}
+
+// ---------------------------------------------------------------------------------------
+// G13: nesting depth
+// ---------------------------------------------------------------------------------------
+
+func ruleG13(c *Ctx) {
+	c.doc("G13", "a rule of the source grammar that opens a bracket and refers back to itself through the rules it calls (parenthesised expressions) carries a depth limit (a code predicate in the rule): the generated parser is recursive descent, each nesting level costs several stack frames, and the goroutine stack is the only bound — 10^5 nested parentheses are a fatal stack overflow")
+	g := mainGrammar(c)
+	if len(g.Errs) > 0 {
+		c.anchorMissing("G13", fmt.Sprintf("source grammar (%v)", g.Errs))
+		return
+	}
+	n := 0
+	for _, r := range g.Order {
+		rule := g.Rules[r]
+		// a sequence: bracket literal … ref X … with X ⇒* r
+		opens := false
+		var back []string
+		hasCode := false
+		var walk func(e *pegNode)
+		walk = func(e *pegNode) {
+			if e == nil {
+				return
+			}
+			switch e.Kind {
+			case "lit":
+				if e.Val == "(" || e.Val == "[" {
+					opens = true
+				}
+			case "code":
+				hasCode = true
+			case "ref":
+				if g.refClosure(e.Name)[r] {
+					back = append(back, e.Name)
+				}
+			}
+			for _, k := range e.Kids {
+				walk(k)
+			}
+		}
+		walk(rule)
+		if !opens || len(back) == 0 {
+			continue
+		}
+		n++
+		c.check(hasCode, "G13", "grammar rule "+r+"|depth limit", c.L.Pos(rule.Pos.Pos()), fmt.Sprintf("rule %s opens a bracket and reaches itself again through %s with no depth limit: nesting depth is bounded only by the 1 GB goroutine stack", r, strings.Join(back, ", ")))
+	}
+	c.check(n >= 1, "G13", "recursive bracket rules found", "", fmt.Sprintf("%d", n))
 }
